@@ -313,6 +313,15 @@ def check(case, r, tier):
                 judge_fail(r, [("p.mac", text)], text, "skip-backward", "a backward '. =' must be refused")
             text = ".link 2000\nnop\n.blkb 10\n. = %o\n.byte 1\n" % (K + 10 - n)
             judge_fail(r, [("p.mac", text)], text, "skip-backward", "a backward '. =' must be refused")
+        # backward to a target below address 0 (which is not the same as forward to 2^16 minus something)
+        for n in range(1, 65):
+            for pre, at in ((".link 0\nnop\n", 2), (". = 0\nnop\n", 2), (".link 10\n.word 1\n", 0o12), (".link 0\n", 0)):
+                for sp in ("%d." % n, "bk%d" % n):
+                    text = pre + ". = .-%s\nnop\n" % sp + ("bk%d = %d.\n" % (n, n) if sp.startswith("bk") else "")
+                    if n > at:
+                        judge_fail(r, [("p.mac", text)], text, "skip-backward-below-zero", "a backward '. =' to a target below address 0 must be refused")
+            text = ".link 10\n.word 1\n. = 6 - %o\n.word 2\n" % (6 + n)
+            judge_fail(r, [("p.mac", text)], text, "skip-backward-below-zero", "a backward '. =' to a negative target must be refused")
         return
     if k == "defaults":
         judge_ok(r, None, [("p.mac", "nop\n")], 0o1000, b"\xa0\x00", "default", "default-base")
